@@ -215,6 +215,7 @@ type c20Case struct {
 	Upgrade    []string `json:"upgrade"`
 	Accept     []string `json:"accept"`
 	Connection bool     `json:"connection,omitempty"` // also send `Connection: Upgrade`
+	Extra      [][]string `json:"extra,omitempty"`    // further request headers the property does not mention
 	Doc        *c20Doc  `json:"doc"`                  // route: nil = no NIP11 configured
 	HasDefault bool     `json:"has_default,omitempty"`
 	Obs        *c20Obs  `json:"obs,omitempty"`
@@ -257,6 +258,11 @@ func c20Exchange(c *c20Case, direct bool) {
 	}
 	if c.Connection {
 		req.Header.Add("Connection", "Upgrade")
+	}
+	for _, kv := range c.Extra {
+		if len(kv) == 2 {
+			req.Header.Add(kv[0], kv[1])
+		}
 	}
 	rec := httptest.NewRecorder()
 	func() {
@@ -480,6 +486,21 @@ var c20KindTexts = []string{
 	`9223372036854775807`, `-9223372036854775808`, `9223372036854775808`, ` 5 `, `[ 1 , 2 ]`, `"a"`, `[true,false]`, `-0`,
 }
 
+// headers a browser or proxy adds; none of them may influence routing or the answer
+func c20GenExtra(r *common.Rand) [][]string {
+	var out [][]string
+	pool := [][]string{{"Origin", "https://client.example"}, {"Origin", "null"}, {"Referer", "https://client.example/app"},
+		{"User-Agent", "nostr-client/1.0"}, {"Accept-Language", "en"}, {"Cookie", "a=b"}, {"X-Forwarded-For", "10.0.0.1"},
+		{"Cache-Control", "no-cache"}, {"Accept-Encoding", "gzip"}, {"Content-Type", "application/nostr+json"}}
+	if !r.Chance(55) {
+		return nil
+	}
+	for k := 1 + r.Intn(3); k > 0; k-- {
+		out = append(out, common.Pick(r, pool))
+	}
+	return out
+}
+
 func c20Gen(r *common.Rand, i int) c20Case {
 	switch p := i % 20; {
 	case p < 11:
@@ -491,9 +512,10 @@ func c20Gen(r *common.Rand, i int) c20Case {
 		if r.Chance(60) {
 			c.Doc = c20GenDoc(r)
 		}
+		c.Extra = c20GenExtra(r)
 		return c
 	case p < 13:
-		return c20Case{K: "direct", Accept: common.Pick(r, c20Accepts), Doc: c20GenDoc(r), Method: "GET"}
+		return c20Case{K: "direct", Accept: common.Pick(r, c20Accepts), Doc: c20GenDoc(r), Method: "GET", Extra: c20GenExtra(r)}
 	case p < 17:
 		return c20Case{K: "doc", Doc: c20GenDoc(r)}
 	case p < 19:
